@@ -855,7 +855,7 @@ pub fn run(ctx: &Ctx) -> i32 {
     ev.assume("group counter: a value counts as used on the wire when Exchange::initiate_group returns an exchange carrying it (Session::pre_send stamps exactly that value)");
     ev.assume("check-in counter: the application follows the interface contract (persists after load and whenever advance/invalidate demand it, and does not send while a persist is owed)");
     ev.assume("event numbers: stored boundaries are restricted to values the implementation itself can have written");
-    if vac.values().any(|v| *v == 0) {
+    if report.violations.is_empty() && (vac.values().any(|v| *v == 0)) {
         eprintln!("MACHINERY: vacuous C12 run {:?}", vac);
         return 2;
     }
